@@ -210,7 +210,7 @@ func enumSessions() []Session {
 		}
 		return s
 	}
-	return []Session{
+	base := []Session{
 		mk("circ", "mix", "", "10", "11", 101),
 		mk("circ", "andchain", "", "111", "111", 102),
 		mk("circ", "free", "", "101", "01", 103),
@@ -222,4 +222,20 @@ func enumSessions() []Session {
 		mk("stream", "", "cmpsub", "01101", "110", 203),
 		mk("stream", "", "sdiff", "11010", "01100", 204),
 	}
+	// Second variant of every session: complemented inputs (other active
+	// labels, other table rows in use) and another seed.
+	inv := func(b string) string {
+		r := []byte(b)
+		for i := range r {
+			r[i] ^= 1
+		}
+		return string(r)
+	}
+	res := append([]Session{}, base...)
+	for _, s := range base {
+		v := s
+		v.X, v.Y, v.Seed = inv(s.X), inv(s.Y), s.Seed+1000
+		res = append(res, v)
+	}
+	return res
 }
